@@ -119,6 +119,26 @@ def _settings(n, shrink):
         phases=phases, print_blob=False)
 
 
+CASE_TIMEOUT = int(os.environ.get('VERIF_CASE_TIMEOUT', '300'))
+
+
+def _guarded_check(mod, case):
+    """Run mod.check(case) under a per-case watchdog: a hung case makes the run inconclusive
+    (harness error, exit 2), never a violation and never an endless run."""
+    import signal
+    from vf.core import HarnessError
+
+    def on_alarm(signum, frame):
+        raise HarnessError('case exceeded the %d s watchdog (inconclusive): %r' % (CASE_TIMEOUT, str(case.spec)[:400]))
+    old = signal.signal(signal.SIGALRM, on_alarm)
+    signal.alarm(CASE_TIMEOUT)
+    try:
+        mod.check(case)
+    finally:
+        signal.alarm(0)
+        signal.signal(signal.SIGALRM, old)
+
+
 def run_shard(args):
     """Pass 1: generate, run, collect. Never raises for property failures."""
     prop, tier, seed, shard, n = args
@@ -137,7 +157,7 @@ def run_shard(args):
         @given(mod.strategy(tier))
         def t(spec):
             case = Case(spec)
-            mod.check(case)
+            _guarded_check(mod, case)
             st.absorb(mod, case, known)
         if n > 0:
             t()
@@ -160,7 +180,7 @@ def run_extra(args):
         st = Shard()
         for spec in specs:
             case = Case(spec)
-            mod.check(case)
+            _guarded_check(mod, case)
             st.absorb(mod, case, known)
         st.t = time.time() - t0
         return ('ok', -1, st.as_dict())
